@@ -26,6 +26,10 @@ type c43Scenario struct {
 	Cfg    pipeCfg
 	Rounds []c43Round
 	Long   string // "" | "decode" | "validate" | "apply": first block is held there for longHold
+	// Overflow != "": the out-of-order buffer limit (MaxPendingBlocks) is small and
+	// one or two early blocks are held in a worker while later blocks overtake them
+	// in numbers around and above the limit.
+	Overflow string
 }
 
 const (
@@ -60,6 +64,10 @@ func genC43(rt *rapid.T) *c43Scenario {
 		sc.Cfg.SkipBodyHash = rapid.Bool().Draw(rt, "skipBodyHash")
 	}
 	sc.Cfg.Buf = rapid.SampledFrom([]int{1, 2, 8, 64}).Draw(rt, "buffer")
+	sc.Cfg.MaxPending = rapid.SampledFrom([]int{0, 0, 1, 2, 3, 5}).Draw(rt, "maxPending")
+	if rapid.IntRange(0, 3).Draw(rt, "overflow") == 3 {
+		return genC43Overflow(rt, sc)
+	}
 	if k := rapid.IntRange(0, 19).Draw(rt, "long"); k >= 12 {
 		sc.Long = []string{"decode", "decode", "decode", "validate", "validate", "validate", "apply", "apply"}[k-12]
 		if sc.Long == "validate" && sc.Cfg.ValidateW == 0 {
@@ -137,6 +145,79 @@ func genC43(rt *rapid.T) *c43Scenario {
 			held.ApplyDelay = longHold
 		}
 		sc.Rounds[0].Pause = longPause
+	}
+	return sc
+}
+
+// genC43Overflow: MaxPendingBlocks m in 1..5; n blocks submitted in one go;
+// block A (index 0 or 1) and usually a second block B further back are held
+// inside a decode or validate worker (enough workers for the others to pass),
+// so that the blocks between and behind them reach the apply stage out of order
+// and pile up around / above the limit; A and B are released in generated order
+// and the wait begins at a generated point (often while a block is still held).
+func genC43Overflow(rt *rapid.T, sc *c43Scenario) *c43Scenario {
+	m := rapid.SampledFrom([]int{1, 1, 2, 2, 3, 5}).Draw(rt, "ovMaxPending")
+	sc.Cfg.MaxPending = m
+	sc.Cfg.Buf = rapid.SampledFrom([]int{8, 64}).Draw(rt, "ovBuffer")
+	stage := sDecode
+	if sc.Cfg.ValidateW > 0 && rapid.Bool().Draw(rt, "ovHoldInValidate") {
+		stage = sValidate
+	}
+	sc.Cfg.DecodeW = rapid.IntRange(3, 16).Draw(rt, "ovDecodeWorkers")
+	if sc.Cfg.ValidateW > 0 {
+		sc.Cfg.ValidateW = rapid.IntRange(3, 16).Draw(rt, "ovValidateWorkers")
+	}
+	n := rapid.IntRange(3, m+7).Draw(rt, "ovBlocks")
+	ia := rapid.IntRange(0, 1).Draw(rt, "ovFirstHeld")
+	ib := -1
+	if rapid.IntRange(0, 4).Draw(rt, "ovSecondHeld") > 0 && ia+1 < n {
+		// distance to the second held block: around the limit
+		d := rapid.IntRange(1, m+3).Draw(rt, "ovGap")
+		if ia+d < n {
+			ib = ia + d
+		} else {
+			ib = n - 1
+		}
+	}
+	holdA := time.Duration(rapid.IntRange(12, 40).Draw(rt, "ovHoldAMs")) * time.Millisecond
+	holdB := holdA + time.Duration(rapid.IntRange(-10, 40).Draw(rt, "ovHoldBDeltaMs"))*time.Millisecond
+	var rd c43Round
+	for i := 0; i < n; i++ {
+		pl := &itemPlan{ID: i + 1, CtxKind: ctxPatient}
+		pl.In = genInput(rt, sc.Cfg, 85)
+		switch i {
+		case ia:
+			pl.Delay[stage] = holdA
+		case ib:
+			pl.Delay[stage] = holdB
+		default:
+			pl.Delay[sDecode] = genDelay(rt, "ovDec", 400)
+		}
+		if i == ia || i == ib {
+			// a held block must be one that reaches the held stage as a live block
+			hdr := nFixture
+			if !sc.Cfg.SkipBodyHash {
+				hdr = 0
+			}
+			pl.In = classify(inputSpec{Base: hdr, Kind: "valid"}, sc.Cfg.SkipBodyHash, sc.Cfg.ValidateW > 0)
+		}
+		rd.Pre = append(rd.Pre, pl)
+	}
+	rd.Pause = time.Duration(rapid.IntRange(0, 60).Draw(rt, "ovPauseMs")) * time.Millisecond
+	sc.Rounds = []c43Round{rd}
+	sc.Overflow = fmt.Sprintf("max_pending=%d, block #%d held %v and block #%d held %v in the %s stage, %d blocks", m, ia+1, holdA, ib+1, holdB, stageNames[stage], n)
+	// optionally a second round on the same pipeline (the counter must still be right)
+	if rapid.Bool().Draw(rt, "ovSecondRound") {
+		var r2 c43Round
+		k := rapid.IntRange(1, 4).Draw(rt, "ovRound2")
+		for i := 0; i < k; i++ {
+			pl := &itemPlan{ID: n + i + 1, CtxKind: ctxPatient}
+			pl.In = genInput(rt, sc.Cfg, 85)
+			pl.Delay[sDecode] = genHold(rt, "ov2dec")
+			pl.ApplyDelay = genHold(rt, "ov2app")
+			r2.Pre = append(r2.Pre, pl)
+		}
+		sc.Rounds = append(sc.Rounds, r2)
 	}
 	return sc
 }
@@ -302,8 +383,12 @@ func (sc *c43Scenario) caseObj(w *world, drains []c43Drain) map[string]any {
 	if sc.Long != "" {
 		m["long_hold"] = fmt.Sprintf("first block held %v in %s, wait begins %v after its submission", longHold, sc.Long, longPause)
 	}
+	if sc.Overflow != "" {
+		m["overflow_shape"] = sc.Overflow
+	}
 	if w != nil {
 		m["history"] = w.historyText()
+		m["pending_limit_overflows_seen"] = w.nOverflow
 	}
 	return m
 }
@@ -318,6 +403,12 @@ func TestC43(t *testing.T) {
 		"wall-clock (150 ms scheduling margin) is used only to name the place the unfinished block was in (finding key), not to decide that it was unfinished",
 		"'decodes' / 'validates' are defined by direct calls of the ledger decoder / VerifyBlock",
 	)
+	drainTimeouts := new(int)
+	defer func() {
+		if *drainTimeouts > 0 && !t.Failed() {
+			t.Errorf("harness: %d WaitForDrain call(s) did not return nil within 3 s + 20x the injected latency although the pipeline finished every block; no C43 claim can be made for them", *drainTimeouts)
+		}
+	}()
 	rec.Check(func(rt *rapid.T) {
 		if rapid.IntRange(0, 5).Draw(rt, "mode") == 5 {
 			c43ClientCase(rec, rt)
@@ -331,7 +422,15 @@ func TestC43(t *testing.T) {
 			rt.Fatalf("harness: pipeline did not start: %v", err)
 		}
 		var drains []c43Drain
+		var planned time.Duration // all latency the harness injects in this case
+		for _, p := range all {
+			planned += p.Delay[0] + p.Delay[1] + p.ApplyDelay + p.Pause
+		}
+		drainBound := 3*time.Second + 20*planned
 		for _, rd := range sc.Rounds {
+			if len(drains) > 0 && drains[len(drains)-1].err != nil {
+				break // the previous wait never succeeded: no further claims in this case
+			}
 			for _, p := range rd.Pre {
 				w.submit(p)
 			}
@@ -342,7 +441,7 @@ func TestC43(t *testing.T) {
 			if len(rd.During) > 0 {
 				during = w.runSubmitters(rd.During)
 			}
-			ctx, cancel := context.WithTimeout(context.Background(), 30*time.Second)
+			ctx, cancel := context.WithTimeout(context.Background(), drainBound)
 			d := c43Drain{call: w.tick()}
 			d.err = w.p.WaitForDrain(ctx)
 			d.ret = w.tick()
@@ -381,6 +480,15 @@ func TestC43(t *testing.T) {
 		if sc.Long != "" {
 			rec.Class("long_hold_" + sc.Long)
 		}
+		if sc.Overflow != "" {
+			rec.Class("overflow_shape_case")
+		}
+		if sc.Cfg.MaxPending > 0 {
+			rec.Class("small_max_pending")
+			if w.nOverflow > 0 {
+				rec.Class("pending_limit_exceeded_observed")
+			}
+		}
 		for _, rd := range sc.Rounds {
 			if len(rd.During) > 0 {
 				rec.Class("round_with_concurrent_submitter")
@@ -388,7 +496,7 @@ func TestC43(t *testing.T) {
 		}
 		if heldDuring > 0 {
 			var sb strings.Builder
-			sb.WriteString(sc.Cfg.String() + ";long=" + sc.Long)
+			sb.WriteString(sc.Cfg.String() + ";long=" + sc.Long + ";ov=" + sc.Overflow)
 			for _, rd := range sc.Rounds {
 				fmt.Fprintf(&sb, "|pause=%v", rd.Pause)
 				for _, p := range rd.Pre {
@@ -405,7 +513,11 @@ func TestC43(t *testing.T) {
 		}
 
 		if okDrains < len(drains) {
-			rt.Fatalf("harness: WaitForDrain did not return nil within 30 s (%v)", drains)
+			// A wait that never succeeds makes no claim (the statement is about
+			// successful returns); it is counted and, if nothing else is found,
+			// reported as inconclusive at the end of the test.
+			rec.Class("drain_did_not_return_nil_within_bound(no claim)")
+			*drainTimeouts++
 		}
 		if !complete {
 			rt.Fatalf("harness: pipeline did not finish the submitted blocks (not a C43 question)\n%s", dump)
